@@ -132,6 +132,9 @@ def gen_case(rng):
     # with the instance, before the verdict is computed
     if rng.random() < 0.25:
         evs.insert(rng.randint(1, len(evs)), {"base": ("lend", rng.randrange(2))})
+    # the original may have been switched to no_verify_in_drop() at any point: its drop is then silent, verify() and report() still judge
+    if rng.random() < 0.12:
+        evs.insert(rng.randint(0, len(evs)), {"base": ("nvid", 0)})
     evs += [{"base": ("drop", 1)}, {"base": (rng.choice(["drop", "verify", "report"]), 0)}]
     return {"partial": rng.random() < 0.3, "terms": terms, "events": evs, "_steered": steered}
 
